@@ -33,8 +33,28 @@ func init() {
 		Assumptions: []string{"SHA-512/256 collision freedom", "reference model (refmodel) is correct; it shares no position arithmetic with the library",
 			"deletion proofs handed to the implementations are the reference model's canonical proofs"},
 		MinDistinct: 50,
-		Plan:        func(tier string) []core.Suite { return c01Plan(tier).suites() },
+		Plan: func(tier string) []core.Suite {
+			n := 2000
+			if tier == "thorough" {
+				n = 60000
+			}
+			return append(c01Plan(tier).suites(), core.Suite{Name: "collide", N: n})
+		},
 		Run: func(c *core.Ctx) {
+			if c.Suite == "collide" {
+				// one added leaf is the hash of an internal node of the forest it is added to: still a
+				// distinct non-empty leaf, but every hash-keyed index of an implementation now sees the
+				// same key for a leaf and for an internal node
+				p := gen.Small
+				if c.Index%2 == 0 {
+					p = gen.Tiny
+				}
+				p.RememberMode = 1
+				h := gen.RandomHistory(c.Rng, p, uint64(c.Seed)<<32|uint64(c.Index)|1<<54)
+				bi := 1 + c.Rng.Intn(len(h.Blocks))
+				c01Check(c, histScenario{History: h, Cfgs: StdCfgs(c.Rng, c.Tier, c.Index), Extra: []int{bi % len(h.Blocks), c.Rng.Intn(4), c.Rng.Intn(1000)}})
+				return
+			}
 			h := c01Plan(c.Tier).history(c)
 			cfgs := StdCfgs(c.Rng, c.Tier, c.Index)
 			if c.Suite == "tall" {
@@ -77,6 +97,36 @@ func c01Check(c *core.Ctx, s histScenario) {
 	c.SetScenario(s)
 	fail := func(site, clause, trigger, detail string) { c.Violate(site, clause, trigger, detail) }
 	w := NewWorld(s.History.Tag, s.Cfgs)
+	collide := extraInts(s.Extra)
+	override := func(w *World) {
+		if len(collide) != 3 {
+			return
+		}
+		w.LeafOverride = func(blockIdx, addIdx int, before *rm.Model) (Hash, bool) {
+			if blockIdx != collide[0] || addIdx != collide[1] {
+				return Hash{}, false
+			}
+			f := before.Forest()
+			var internal []uint64
+			for pos := uint64(0); pos < uint64(2)<<f.H; pos++ {
+				if nd := f.Nodes[pos]; nd != nil && nd.Leaf < 0 {
+					internal = append(internal, pos)
+				}
+			}
+			if len(internal) == 0 {
+				return Hash{}, false
+			}
+			h := f.Nodes[internal[collide[2]%len(internal)]].Hash
+			for _, l := range before.Leaves {
+				if l == h {
+					return Hash{}, false // already used as a leaf once
+				}
+			}
+			c.Count("leaves_equal_to_an_internal_node_hash", 1)
+			return h, true
+		}
+	}
+	override(w)
 	nontrivial := false
 	for bi, b := range s.History.Blocks {
 		rec, ok := w.ApplyBlock(b, fail)
@@ -100,6 +150,9 @@ func c01Check(c *core.Ctx, s histScenario) {
 	for variant := 0; variant < 2; variant++ {
 		if c.Suite == "tall" && variant == 0 {
 			continue // one-leaf blocks on tall forests cost too much for no new shape
+		}
+		if len(collide) == 3 {
+			break // rebatching changes block indexes; the collision suite is about hash-keyed indexes only
 		}
 		w2 := NewWorld(s.History.Tag, []InstCfg{{Kind: "pollard"}, {"mapfull", s.Cfgs[len(s.Cfgs)-1].Rows}})
 		fail2 := func(site, clause, trigger, detail string) {
@@ -155,6 +208,23 @@ func c01Check(c *core.Ctx, s histScenario) {
 		c.Sample(c.Suite, map[string]any{"history": s.History, "cfgs": cfgNames(s.Cfgs), "final_leaves": final.N, "final_roots": hashesStr(final.Roots)})
 	}
 	_ = u.Proof{}
+}
+
+// extraInts decodes a scenario's Extra field when it is a list of integers.
+func extraInts(x any) []int {
+	switch v := x.(type) {
+	case []int:
+		return v
+	case []any:
+		var out []int
+		for _, e := range v {
+			if f, ok := e.(float64); ok {
+				out = append(out, int(f))
+			}
+		}
+		return out
+	}
+	return nil
 }
 
 func cfgNames(cfgs []InstCfg) []string {
